@@ -22,7 +22,7 @@ ENVS = [(t, fs) for t in ("screen", "print", "other") for fs in itertools.produc
 
 
 def plan(tier):
-    return {"budget_s": 25 if tier == "quick" else 240, "profiles": ["R"], "min_evaluations": 3000}
+    return {"budget_s": 25 if tier == "quick" else 240, "profiles": ["R"], "min_evaluations": 1000}
 
 
 def queries():
